@@ -39,7 +39,7 @@ def labels(w):
     return {'cafe': DATA_SEG * w, 'c0': 0, 'ns.sub.x': w}
 
 
-def commands(w, image):
+def commands(w, image, base=None):
     """the command alphabet (text, kind, arg)"""
     a_code = 0
     a_data = w  # the jump word of op 0
@@ -56,7 +56,19 @@ def commands(w, image):
         ('r cafe', 'read', ('word', dv)), ('r :B2:cafe', 'read', ('var', 'B', 2, dv)), ('r :h1:c0', 'read', ('var', 'h', 1, a_code)), ('r c0', 'read', ('word', a_code)),
         ('r ns.sub.x', 'read', ('word', a_data)), ('r CAFE', 'read', ('word', 0xCAFE)),
         ('h', 'noop', None), ('foo', 'noop', None), ('', 'noop', None), ('c 5', 'noop', None), ('q', 'quit', None),
-    ]
+    ] + fault_reads(w, base)
+
+
+def fault_reads(w, base):
+    """for a program whose undebugged run ends in a memory error: reads of exactly the word it will fault on (a read must not
+    make that word exist), as a word and through a variable read spanning it"""
+    if base is None or base.fault is None:
+        return []
+    fa = base.fault - base.fault % w
+    out = [(f'r {fa}', 'read', ('word', fa))]
+    if fa >= w:
+        out.append((f'r :b1:{fa - w}', 'read', ('var', 'b', 1, fa - w)))
+    return out
 
 
 def machine_at(image, answers, nops):
@@ -217,7 +229,7 @@ def work(task):
         return stats, sieve.result(), None
     pname, image, answers, base = progs[pi]
     path = write_image(image, f'c15-{w}-{pi}.fjm')
-    cmds = commands(w, image)
+    cmds = commands(w, image, base)
     visited = list(dict.fromkeys(base.trace))
     never = max(visited) + 4 * w
     bsets = [()] + [(a,) for a in visited[:5]] + [tuple(p) for p in itertools.combinations(visited[:4], 2)] + [(never,), (visited[0], never)]
@@ -367,7 +379,7 @@ def replay(args):
     w = c['w']
     image = R1.Image.from_json(c['image'])
     base = R1.run(image, c['answers'], H)
-    cmds = commands(w, image)
+    cmds = commands(w, image, base)
     handler = None
     if 'substrings_asked' in c:
         from flipjump.interpreter.debugging.breakpoints import get_breakpoint_handler
